@@ -308,6 +308,12 @@ def main():
             kw = cfg.get('gen_kw', {}).get(fam, {})
             for s in scen.generate(fam, f'{seed}-{tier}', n, **kw):
                 all_scen.append((fam, s))
+        exhaustive_info = None
+        if tier == 'thorough' and cfg.get('exhaustive'):
+            for fam, bound in cfg['exhaustive']:
+                ex = scen.enum_family(fam, bound)
+                all_scen += [(fam, s) for s in ex]
+                exhaustive_info = {'family': fam, 'length_bound': bound, 'sequences': len(ex)}
         texts = [scen.to_text(s) for _, s in all_scen]
         im, mo, diffs = corr.compare(texts, cfg['tags'], cfg.get('runner', 'FullRunner'))
         n_model = len(texts)
@@ -481,7 +487,8 @@ def main():
             'projection_tags': sorted(cfg['tags'].keys()),
             'samples': [{'scenario': texts[sample_i].splitlines()[:40],
                          'implementation_trace_head': im[sample_i][:25]}] if texts else [],
-            'exhaustive': False,
+            'exhaustive': exhaustive_info is not None,
+            'exhaustive_part': exhaustive_info,
             'build_s': round(bt + bt2, 1),
         }
         cov.update(extra_cov)
